@@ -114,6 +114,22 @@ type LNNode struct {
 	// preimages the adversary is willing to release, by hash
 	AdvPreimages map[string]string
 	nonce        int
+	invOrder     []string // creation order (deterministic rendering)
+	payOrder     []string
+	notOrder     []string
+}
+
+// Inflight returns the hashes of in-flight payments in creation order.
+func (n *LNNode) Inflight() []string {
+	n.w.mu.Lock()
+	defer n.w.mu.Unlock()
+	var out []string
+	for _, h := range n.payOrder {
+		if n.Payments[h].State == PayInflight {
+			out = append(out, h)
+		}
+	}
+	return out
 }
 
 func (w *World) AddLN(id string, lnd bool) *LNNode {
@@ -138,6 +154,7 @@ func (n *LNNode) Channel(scid string) *Channel {
 func (n *LNNode) ResetIncarnation(onPaid func(label string)) {
 	n.w.mu.Lock()
 	n.notifiers = map[string]bool{}
+	n.notOrder = nil
 	n.onPaid = onPaid
 	n.w.mu.Unlock()
 }
@@ -163,6 +180,9 @@ func (n *LNNode) CreateInvoice(msat uint64, preimageHex, label string, expirySec
 	n.nonce++
 	inv.Nonce = n.nonce
 	pr := EncodeInvoice(inv)
+	if _, dup := n.Invoices[h]; !dup {
+		n.invOrder = append(n.invOrder, h)
+	}
 	n.Invoices[h] = &LocalInvoice{Payreq: pr, Inv: inv, Preimage: preimageHex, Label: label}
 	return pr, nil
 }
@@ -171,6 +191,9 @@ func (n *LNNode) CreateInvoice(msat uint64, preimageHex, label string, expirySec
 // callback fires once the labelled invoice is paid (immediately if it already is).
 func (n *LNNode) AddNotifier(label string) {
 	n.w.mu.Lock()
+	if !n.notifiers[label] {
+		n.notOrder = append(n.notOrder, label)
+	}
 	n.notifiers[label] = true
 	var fire bool
 	for _, li := range n.Invoices {
@@ -227,6 +250,7 @@ func (n *LNNode) Pay(life *Life, payreq, scid string, limit uint32, kind string)
 	if p == nil {
 		p = &Payment{Hash: inv.Hash, Payreq: payreq}
 		n.Payments[inv.Hash] = p
+		n.payOrder = append(n.payOrder, inv.Hash)
 	}
 	record := func(res string, e error) {
 		o := Obs{Node: n.ID, Kind: kind, Payreq: payreq, Hash: inv.Hash, Scid: scid, Limit: limit, Result: res}
@@ -433,46 +457,25 @@ func (n *LNNode) PayStateOf(hash string) PayState {
 	return PayNone
 }
 
-func (n *LNNode) Key(label func(class, s string) string) string {
+// Key renders the node's tables with raw (random) hashes; the caller
+// replaces them by labels.
+func (n *LNNode) Key() string {
 	n.w.mu.Lock()
-	type kv struct{ k, v string }
-	var invs, pays []string
-	for h, li := range n.Invoices {
-		invs = append(invs, fmt.Sprintf("%s/%s/paid=%v/exp=%v", h, li.Label[strings.LastIndex(li.Label, "_")+1:], li.Paid, n.expired(li.Inv)))
+	defer n.w.mu.Unlock()
+	var invs, pays, nots, chs []string
+	for _, h := range n.invOrder {
+		li := n.Invoices[h]
+		invs = append(invs, fmt.Sprintf("%s/%s/paid=%v/exp=%v", li.Label, h, li.Paid, n.expired(li.Inv)))
 	}
-	for h, p := range n.Payments {
+	for _, h := range n.payOrder {
+		p := n.Payments[h]
 		pays = append(pays, fmt.Sprintf("%s/%s/a%d/w%d", h, p.State, p.Attempts, len(p.waiters)))
 	}
-	var nots []string
-	for l := range n.notifiers {
-		nots = append(nots, l)
-	}
-	var chs []string
+	nots = append(nots, n.notOrder...)
 	for _, c := range n.Channels {
 		chs = append(chs, fmt.Sprintf("%s:%d:%d", c.Scid, c.Spendable, c.Receivable))
 	}
-	n.w.mu.Unlock()
-	relabel := func(in []string, class string) []string {
-		out := make([]string, len(in))
-		for i, s := range in {
-			j := strings.Index(s, "/")
-			if j < 0 {
-				out[i] = label(class, s)
-			} else {
-				out[i] = label(class, s[:j]) + s[j:]
-			}
-		}
-		sort.Strings(out)
-		return out
-	}
-	for i, l := range nots {
-		j := strings.LastIndex(l, "_")
-		if j > 0 {
-			nots[i] = label("id", l[:j]) + l[j:]
-		}
-	}
-	sort.Strings(nots)
-	return fmt.Sprintf("LN[%s lnd=%v inv%v pay%v not%v ch%v]", n.ID[:4], n.LND, relabel(invs, "h"), relabel(pays, "h"), nots, chs)
+	return fmt.Sprintf("LN[%s lnd=%v inv%v pay%v not%v ch%v]", n.ID[:4], n.LND, invs, pays, nots, chs)
 }
 
 func HexOf(b []byte) string { return hex.EncodeToString(b) }
@@ -492,4 +495,17 @@ func (w *World) Shutdown() {
 	for _, c := range ws {
 		close(c)
 	}
+}
+
+// PaySnapshot renders the outgoing payment table ("hash=state,...") — ground
+// truth recorded with every message a node sends.
+func (n *LNNode) PaySnapshot() string {
+	n.w.mu.Lock()
+	defer n.w.mu.Unlock()
+	var out []string
+	for h, p := range n.Payments {
+		out = append(out, h+"="+p.State.String())
+	}
+	sort.Strings(out)
+	return strings.Join(out, ",")
 }
